@@ -126,6 +126,15 @@ func TestC04(t *testing.T) {
 		id++
 	}
 	run.Require("interleaved_histories_judged", int64(nh*2/3))
+	// an attempt that times out before any response byte ("refused, reset, unreachable or timed
+	// out"): the first candidate accepts the request and never answers; response_timeout is 1 s
+	for _, eng := range []string{"sherpa", "olla"} {
+		for _, bal := range []string{"priority", "round-robin"} {
+			timedOutAttempt(run, eng, bal, id)
+			id++
+		}
+	}
+	run.Require("timed_out_attempt_cases", 3)
 	run.Require("asserted_cases_with_ok_candidate", int64(rep.Pick(140, 300)))
 	run.Require("followup_requests_judged", 50)
 	run.Require("circuit_open_cases", 10)
@@ -506,6 +515,46 @@ func interleavedHistory(run *rep.Run, eng, bal string, id int, rng *rand.Rand) {
 	}
 	run.Count("interleaved_histories_judged", 1)
 	run.Eval(fmt.Sprintf("interleaved/%s/%s/%d", eng, bal, id))
+}
+
+func timedOutAttempt(run *rep.Run, eng, bal string, id int) {
+	f, err := fw.New(fw.Opt{Engine: eng, Balancer: bal, N: 2, Spec: func(s *world.Spec) { s.RespTimeout = time.Second }})
+	if err != nil {
+		run.Inconclusive("world failed to start: " + err.Error())
+		return
+	}
+	defer f.Close()
+	hc := world.NewClient(false, 15*time.Second)
+	// every endpoint silent before its headers except the last: whichever the balancer starts
+	// with, the request can only be served after a timed-out attempt or by luck
+	for round := 0; round < 3; round++ {
+		f.Readmit()
+		c := f.Run(hc, fmt.Sprintf("to%dr%d", id, round), []fw.Fault{{Kind: "stall_before_headers"}, {Kind: "ok"}}, "", nil, nil)
+		tried0 := false
+		for _, a := range c.Attempts {
+			if a.Backend == 0 {
+				tried0 = true
+			}
+		}
+		if !tried0 {
+			run.Count("timed_out_attempt_not_reached", 1) // the balancer started with the good one
+			continue
+		}
+		run.Count("timed_out_attempt_cases", 1)
+		run.Eval(fmt.Sprintf("timed-out/%s/%s/%d", eng, bal, round))
+		wit := map[string]any{"engine": eng, "balancer": bal, "client": c.Res, "attempts": c.Attempts, "response_timeout": "1s"}
+		if !(c.Res.Status >= 200 && c.Res.Status < 300) {
+			run.Violation("C04/timed-out-attempt/not-failed-over/"+eng, fmt.Sprintf("b0 accepted the request and sent nothing for response_timeout (1 s), b1 is fine, yet the client got %d", c.Res.Status), wit)
+			continue
+		}
+		// out of rotation until a health check readmits it
+		c2 := f.Run(hc, fmt.Sprintf("to%dr%df", id, round), []fw.Fault{{Kind: "ok"}, {Kind: "ok"}}, "", nil, nil)
+		for _, a := range c2.Attempts {
+			if a.Backend == 0 {
+				run.Violation("C04/timed-out-attempt/still-in-rotation/"+eng, "b0 timed out on the previous request and no health check has run since, yet the next request was sent to it", map[string]any{"engine": eng, "balancer": bal, "attempts": c2.Attempts})
+			}
+		}
+	}
 }
 
 func engineBreaker(f *fw.FW, k int) shifter {
